@@ -147,6 +147,9 @@ func (ct *Ciphertext[E, S]) UnmarshalCBOR(data []byte) error {
 	if dto.V == nil {
 		return encryption.ErrIsNil.WithMessage("ciphertext component V is nil")
 	}
+	if len(dto.V.Components()) != 2 {
+		return encryption.ErrFailed.WithMessage("ciphertext must have exactly 2 components")
+	}
 	ctt, err := NewCiphertext(dto.V.Components()[0], dto.V.Components()[1])
 	if err != nil {
 		return errs.Wrap(err).WithMessage("could not create ciphertext from unmarshaled components")
